@@ -43,8 +43,10 @@ Definition dst_key (o : cop) : ckey := (o_dst o, o_asset o).
 
 (* ---------- tables ---------- *)
 Record vrow := { v_key : ckey; v_bal : Z; v_pend : Z; v_lock : option wid; v_new : bool; v_upd : bool }.
-Record trow := { t_id : Z; t_ref : string; t_own : option wid; t_rev : bool; t_revlock : option wid }.
-Record lrow := { l_id : Z; l_ik : string; l_inh : Z; l_own : option wid; l_tx : Z }.
+(* t_pend / l_pend: the row's id has been drawn (nextval) by an INSERT that is still waiting on the unique index: the row is not
+   in the table yet (nobody can see or conflict with it); it only records that the id is taken *)
+Record trow := { t_id : Z; t_ref : string; t_own : option wid; t_rev : bool; t_revlock : option wid; t_pend : bool }.
+Record lrow := { l_id : Z; l_ik : string; l_inh : Z; l_own : option wid; l_tx : Z; l_pend : bool }.
 
 Inductive cerr := EInsufficient | ERefConflict | EAlreadyReverted | ENotFound | EIkInput | EIkConflict | EDeadlock.
 Inductive cres := RNone | ROk (log tx : Z) (hit : bool) | RErr (e : cerr).
@@ -128,13 +130,13 @@ Definition v_release (w : wid) (r : vrow) : vrow :=
 Definition v_commit (w : wid) (r : vrow) : vrow :=
   if owner_is (v_lock r) w then {| v_key := v_key r; v_bal := v_bal r + v_pend r; v_pend := 0; v_lock := None; v_new := false; v_upd := false |} else r.
 Definition t_release (w : wid) (t : trow) : trow :=
-  if owner_is (t_revlock t) w then {| t_id := t_id t; t_ref := t_ref t; t_own := t_own t; t_rev := t_rev t; t_revlock := None |} else t.
+  if owner_is (t_revlock t) w then {| t_id := t_id t; t_ref := t_ref t; t_own := t_own t; t_rev := t_rev t; t_revlock := None; t_pend := t_pend t |} else t.
 Definition t_commit (w : wid) (t : trow) : trow :=
   {| t_id := t_id t; t_ref := t_ref t; t_own := if owner_is (t_own t) w then None else t_own t;
      t_rev := if owner_is (t_revlock t) w then true else t_rev t;
-     t_revlock := if owner_is (t_revlock t) w then None else t_revlock t |}.
+     t_revlock := if owner_is (t_revlock t) w then None else t_revlock t; t_pend := t_pend t |}.
 Definition l_commit (w : wid) (l : lrow) : lrow :=
-  {| l_id := l_id l; l_ik := l_ik l; l_inh := l_inh l; l_own := if owner_is (l_own l) w then None else l_own l; l_tx := l_tx l |}.
+  {| l_id := l_id l; l_ik := l_ik l; l_inh := l_inh l; l_own := if owner_is (l_own l) w then None else l_own l; l_tx := l_tx l; l_pend := l_pend l |}.
 
 (* abort: every in-flight row of w disappears, every lock of w is released, its waiters wake up *)
 Definition abort (g : gst) (w : wid) : gst :=
@@ -194,7 +196,7 @@ Definition do_rev (g : gst) (w : wid) (s : wst) : gst :=
          | Some h => if Nat.eqb h w then ev (upd_w g w (fun s => wset_pc s PBal)) w LRev SDone else blocked g w h LRev
          | None =>
            let txs := map (fun x => if (t_id x =? o_tx o) && match t_own x with None => true | Some _ => false end
-                                    then {| t_id := t_id x; t_ref := t_ref x; t_own := t_own x; t_rev := t_rev x; t_revlock := Some w |} else x) (g_txs g) in
+                                    then {| t_id := t_id x; t_ref := t_ref x; t_own := t_own x; t_rev := t_rev x; t_revlock := Some w; t_pend := t_pend x |} else x) (g_txs g) in
            ev (upd_w (set_txs g txs) w (fun s => wset_pc s PBal)) w LRev SDone
          end
   end.
@@ -265,18 +267,22 @@ Definition do_vol (g : gst) (w : wid) (s : wst) : gst :=
   vol_loop g w (skipn (w_volk s) (vol_keys (w_op s))) (w_volk s).
 
 (* InsertTransaction: id = nextval (drawn when the statement starts, never given back); unique (ledger, reference) *)
+Definition t_publish (id : Z) (t : trow) : trow :=
+  if t_id t =? id then {| t_id := t_id t; t_ref := t_ref t; t_own := t_own t; t_rev := t_rev t; t_revlock := t_revlock t; t_pend := false |} else t.
+Definition tx_ref (o : cop) : string := match o_kind o with KCreate => o_ref o | KRevert => ""%string end.
 Definition do_tx (g : gst) (w : wid) (s : wst) : gst :=
   let o := w_op s in
+  let ref := tx_ref o in
   let '(g1, id) := match w_txid s with
                    | Some i => (g, i)
-                   | None => (upd_w (set_ntx g (g_ntx g + 1)) w (fun s => wset_txid s (Some (g_ntx g))), g_ntx g)
+                   | None =>
+                     let row := {| t_id := g_ntx g; t_ref := ref; t_own := Some w; t_rev := false; t_revlock := None; t_pend := true |} in
+                     (upd_w (set_ntx (set_txs g (g_txs g ++ [row])) (g_ntx g + 1)) w (fun s => wset_txid s (Some (g_ntx g))), g_ntx g)
                    end in
-  let ref := match o_kind o with KCreate => o_ref o | KRevert => ""%string end in
   let insert :=
-    let row := {| t_id := id; t_ref := ref; t_own := Some w; t_rev := false; t_revlock := None |} in
-    ev (upd_w (set_txs g1 (g_txs g1 ++ [row])) w (fun s => wset_pc s (if g_hash g then PAdv else PLog))) w LTx SDone in
+    ev (upd_w (set_txs g1 (map (t_publish id) (g_txs g1))) w (fun s => wset_pc s (if g_hash g then PAdv else PLog))) w LTx SDone in
   if String.eqb ref "" then insert
-  else match find (fun t => String.eqb (t_ref t) ref) (g_txs g1) with
+  else match find (fun t => String.eqb (t_ref t) ref && negb (t_pend t)) (g_txs g1) with
        | None => insert
        | Some t => match t_own t with
                    | Some h => if Nat.eqb h w then insert else blocked g1 w h LTx
@@ -292,18 +298,22 @@ Definition do_adv (g : gst) (w : wid) (s : wst) : gst :=
   end.
 
 (* InsertLog: id = nextval; unique (ledger, idempotency_key) *)
+Definition l_publish (id : Z) (l : lrow) : lrow :=
+  if l_id l =? id then {| l_id := l_id l; l_ik := l_ik l; l_inh := l_inh l; l_own := l_own l; l_tx := l_tx l; l_pend := false |} else l.
 Definition do_log (g : gst) (w : wid) (s : wst) : gst :=
   if g_hash g && negb (owner_is (g_adv g) w) then g else
   let o := w_op s in
   let '(g1, id) := match w_logid s with
                    | Some i => (g, i)
-                   | None => (upd_w (set_nlog g (g_nlog g + 1)) w (fun s => wset_logid s (Some (g_nlog g))), g_nlog g)
+                   | None =>
+                     let row := {| l_id := g_nlog g; l_ik := o_ik o; l_inh := o_inh o; l_own := Some w;
+                                   l_tx := match w_txid s with Some i => i | None => 0 end; l_pend := true |} in
+                     (upd_w (set_nlog (set_logs g (g_logs g ++ [row])) (g_nlog g + 1)) w (fun s => wset_logid s (Some (g_nlog g))), g_nlog g)
                    end in
   let insert :=
-    let row := {| l_id := id; l_ik := o_ik o; l_inh := o_inh o; l_own := Some w; l_tx := match w_txid s with Some i => i | None => 0 end |} in
-    ev (upd_w (set_logs g1 (g_logs g1 ++ [row])) w (fun s => wset_pc s PCommit)) w LLog SDone in
+    ev (upd_w (set_logs g1 (map (l_publish id) (g_logs g1))) w (fun s => wset_pc s PCommit)) w LLog SDone in
   if String.eqb (o_ik o) "" then insert
-  else match find (fun l => String.eqb (l_ik l) (o_ik o)) (g_logs g1) with
+  else match find (fun l => String.eqb (l_ik l) (o_ik o) && negb (l_pend l)) (g_logs g1) with
        | None => insert
        | Some l => match l_own l with
                    | Some h => if Nat.eqb h w then insert else blocked g1 w h LLog
